@@ -5,6 +5,7 @@
 import RbModel.Lemmas.Flags
 import RbModel.Lemmas.Cluster
 import RbModel.Lemmas.MatchSpanRule
+import RbModel.Lemmas.MatchSpanLocal
 
 namespace RbModel.Flags
 open RbModel RbModel.Gsub
